@@ -13,7 +13,7 @@ func c10Cfg() *DeclCfg {
 	return &DeclCfg{
 		MaxDepth: 2, MaxFan: 2, PCmds: 50, Types: types, OptsMin: 1, OptsMax: 4, SubGroupsMax: 1, NestMax: 1,
 		PNamespace: 20, PShortOnly: 15, PLongOnly: 15,
-		PPos: 100, PosMax: 5, PRest: 50, PExec: 30, PByTag: 50, PSubOptional: 60, PAliases: 20,
+		PPos: 70, PosMax: 5, PRest: 50, PExec: 30, PByTag: 50, PSubOptional: 60, PAliases: 20,
 		ParserOpts: []flags.Options{0, flags.PassDoubleDash, flags.PassDoubleDash, flags.HelpFlag | flags.PassDoubleDash, flags.PassAfterNonOption, flags.PassDoubleDash | flags.IgnoreUnknown},
 		PosTypes:   []TypeSpec{{K: KString}, {K: KString}, {K: KInt}, {K: KFloat64}, {K: KDuration}, {K: KCelsius}, {K: KUint8}, {K: KPoint}},
 	}
@@ -30,7 +30,7 @@ func c10Run(c *Ctx) {
 	// position of the terminator and density of interleaved options vary with k
 	pterm := []int{0, 15, 40, 80}[c.K%4]
 	pocc := []int{0, 25, 45}[(c.K/4)%3]
-	sc := GenScenario(c.R, d, &ScenCfg{MaxItems: 14, POcc: pocc, PCluster: 5, PPos: 75 - pocc, PCmd: 12, PTerm: pterm, PQuoted: 5, HostileRaw: true})
+	sc := GenScenario(c.R, d, &ScenCfg{MaxItems: 14, POcc: pocc, PCluster: 5, PPos: 75 - pocc, PCmd: 12, PTerm: pterm, PQuoted: 5, HostileRaw: true, PCmdWordAsPos: 15})
 	args := sc.Args()
 	c.Case(caseOf(sc, args, nil))
 	if sc.Exp.Unspec != "" {
